@@ -15,6 +15,8 @@ Level 2 (glue) cases start with `gcfg`:
   resp id=<n> seq=<n> status=<n>                     → retry=<seconds|none>
   reload d=<label> ok=<0|1>                          → ok | err:rejected
   revert kind=<last|free>                            → ok
+  stall | unstall                                    → ok   (scheduling of the real worker only)
+  diag                                               → diag=<id>:<label mod 10>,…|none  (records since the last diag, by id)
 -/
 open LunarVerif LunarVerif.Proto LunarVerif.C11
 
@@ -30,6 +32,13 @@ def applyOps (cfg : Cfg) (s : St) (ops : List Op) : St := runSt cfg s ops
 def fmtData : Option Nat → String
   | some d => toString d
   | none => "none"
+
+/-- stable insertion sort of diagnosis records by transaction number -/
+def insertSorted (recs : List (Nat × Option Nat)) : List (Nat × Option Nat) :=
+  let ins (acc : List (Nat × Option Nat)) (x : Nat × Option Nat) : List (Nat × Option Nat) :=
+    let (le, gt) := acc.span (fun y => y.1 ≤ x.1)
+    le ++ x :: gt
+  recs.foldl ins []
 
 def runStep (s : RunSt) (line : String) : RunSt × String :=
   match words line with
@@ -85,6 +94,7 @@ def runStep (s : RunSt) (line : String) : RunSt × String :=
   | ["gcfg", w] =>
     match kvNat [w] "d0" with
     | some d0 =>
+      if d0 ≥ 1000 then (s, "bad-op") else
       let cfg : Cfg := ⟨30000000000, 30000000000, d0⟩
       ({ ready := false, cfg := cfg, g := some (ginit cfg 0) }, "ok")
     | none => (s, "bad-op")
@@ -93,7 +103,7 @@ def runStep (s : RunSt) (line : String) : RunSt × String :=
     | some g, some id, some seq =>
       let (g', ev) := gstep s.cfg g (.req id seq)
       let out := match ev with
-        | some (.req _ _ r) => s!"ver={fmtData r}"
+        | [.req _ _ r] => s!"ver={fmtData r}"
         | _ => "internal-error"
       ({ s with g := some g' }, out)
     | _, _, _ => (s, "bad-op")
@@ -103,22 +113,37 @@ def runStep (s : RunSt) (line : String) : RunSt × String :=
       if st ≥ 1000 then (s, "bad-op") else
       let (g', ev) := gstep s.cfg g (.resp id seq st)
       let out := match ev with
-        | some (.resp _ _ _ r) => s!"retry={fmtData r}"
+        | [.resp _ _ _ r] => s!"retry={fmtData r}"
         | _ => "internal-error"
       ({ s with g := some g' }, out)
     | _, _, _, _ => (s, "bad-op")
   | ["reload", w1, w2] =>
     match s.g, kvNat [w1] "d", kvNat [w2] "ok" with
     | some g, some d, some okn =>
-      if okn > 1 then (s, "bad-op") else
+      if okn > 1 || d ≥ 1000 then (s, "bad-op") else
       ({ s with g := some (gstep s.cfg g (.reload d (okn == 1))).1 }, if okn == 1 then "ok" else "err:rejected")
     | _, _, _ => (s, "bad-op")
   | ["revert", w] =>
     match s.g, kv [w] "kind" with
     | some g, some kind =>
-      if kind == "last" || kind == "free" then ({ s with g := some (gstep s.cfg g .revert).1 }, "ok")
+      if kind == "last" || kind == "free" then
+        ({ s with g := some (gstep s.cfg g (.revert (kind == "free"))).1 }, "ok")
       else (s, "bad-op")
     | _, _ => (s, "bad-op")
+  | ["stall"] => if s.g.isSome then (s, "ok") else (s, "bad-op")
+  | ["unstall"] => if s.g.isSome then (s, "ok") else (s, "bad-op")
+  | ["diag"] =>
+    match s.g with
+    | some g =>
+      let (g', evs) := gstep s.cfg g .diag
+      let recs := evs.filterMap fun e => match e with
+        | .diag id r => some (id, r)
+        | _ => none
+      let sorted := insertSorted recs
+      let out := if sorted.isEmpty then "diag=none"
+        else "diag=" ++ ",".intercalate (sorted.map fun (id, r) => s!"{id}:{fmtData r}")
+      ({ s with g := some g' }, out)
+    | none => (s, "bad-op")
   | _ => (s, "bad-op")
 
 structure JudgeSt where
@@ -126,6 +151,7 @@ structure JudgeSt where
   hist : List Ev := []   -- most recent first
   bad : Option String := none
   gd0 : Option Nat := none
+  gloaded : Nat := 0       -- label of the last applied reload (what a revert re-applies)
   ghist : List GEv := []   -- most recent first
 
 def parseData (s : String) : Option (Option Nat) :=
@@ -151,7 +177,7 @@ def judgeStep (s : JudgeSt) (op out : String) : JudgeSt :=
     | _, _, _ => { s with bad := some ("unparsable-output:" ++ pctEnc out) }
   | ["gcfg", w] =>
     match kvNat [w] "d0" with
-    | some d0 => if out == "ok" then { s with gd0 := some d0 } else { s with bad := some ("gcfg-failed:" ++ pctEnc out) }
+    | some d0 => if out == "ok" then { s with gd0 := some d0, gloaded := d0 } else { s with bad := some ("gcfg-failed:" ++ pctEnc out) }
     | none => { s with bad := some "unparsable-gcfg" }
   | ["req", w1, w2] =>
     match kvNat [w1] "id", kvNat [w2] "seq", (kv (words out) "ver").bind parseData with
@@ -164,16 +190,35 @@ def judgeStep (s : JudgeSt) (op out : String) : JudgeSt :=
   | ["reload", w1, _] =>
     if out == "err:rejected" then s else
     match kvNat [w1] "d" with
-    | some d => if out == "ok" then { s with ghist := .reload d :: s.ghist }
+    | some d => if out == "ok" then { s with ghist := .reload d :: s.ghist, gloaded := d }
                 else { s with bad := some ("unparsable-output:" ++ pctEnc out) }
     | none => { s with bad := some "unparsable-reload" }
-  | ["revert", _] => if out == "ok" then s else { s with bad := some ("revert-failed:" ++ pctEnc out) }
+  | ["revert", w] =>
+    if out != "ok" then { s with bad := some ("revert-failed:" ++ pctEnc out) } else
+    match kv [w] "kind" with
+    | some "last" => { s with ghist := .reload s.gloaded :: s.ghist }
+    | some "free" => { s with ghist := .reload (s.gloaded + 1000) :: s.ghist }
+    | _ => { s with bad := some "unparsable-revert" }
+  | ["diag"] =>
+    match kv (words out) "diag" with
+    | some "none" => s
+    | some lst =>
+      let parsed := (lst.splitOn ",").map fun item =>
+        match item.splitOn ":" with
+        | [a, b] => match a.toNat?, parseData b with
+          | some id, some r => some (GEv.diag id r)
+          | _, _ => none
+        | _ => none
+      if parsed.all Option.isSome then { s with ghist := (parsed.filterMap id).reverse ++ s.ghist }
+      else { s with bad := some ("unparsable-output:" ++ pctEnc out) }
+    | none => { s with bad := some ("unparsable-output:" ++ pctEnc out) }
   | _ => s
 
 def fmtGEv : GEv → String
   | .req id seq r => s!"req id={id} seq={seq} ver={fmtData r}"
   | .resp id seq st r => s!"resp id={id} seq={seq} status={st} retry={fmtData r}"
   | .reload k => s!"reload d={k}"
+  | .diag id r => s!"diag id={id} label={fmtData r}"
 
 def judgeGlue (d0 : Nat) (h : List GEv) : String :=
   if gHoldsRev d0 h then "ok"
@@ -189,6 +234,8 @@ def judgeGlue (d0 : Nat) (h : List GEv) : String :=
     | some (.resp id seq st r, older) =>
       let exp := (retryLens (gRetry d0 older) (gLabel d0 older id) id seq st).2
       s!"fail - glue-spec-violated-at {pctEnc (fmtGEv (.resp id seq st r))} response-must-be-processed-with-policies={gLabel d0 older id} expected-retry={fmtData exp} in-force-now={gCur d0 older}"
+    | some (.diag id r, older) =>
+      s!"fail - glue-spec-violated-at {pctEnc (fmtGEv (.diag id r))} diagnosis-must-use-policies={gLabel d0 older id}(mod10={diagLens (gLabel d0 older id)}) in-force-now={gCur d0 older}"
     | some (e, _) => s!"fail - glue-spec-violated-at {pctEnc (fmtGEv e)}"
     | none => "fail - glue-spec-violated"
 
